@@ -3,6 +3,7 @@ package props
 import (
 	"encoding/json"
 	"fmt"
+	"math/rand/v2"
 	"reflect"
 	"sync"
 
@@ -24,7 +25,7 @@ func (c12) Cases(t fw.Tier) int {
 }
 func (c12) Processes(t fw.Tier) int { return tierN(t, 2, 4) }
 func (c12) Rule() string {
-	return "case kinds: (u) arrays of length 0-12 over a small value pool, each element in its own random exact Go representation, with planted duplicates at random position pairs " +
+	return "case kinds: (u) arrays of length 0-12 over a small value pool (one in six: 13-257 mostly unique items with hash-colliding unequal values and at most one duplicated value), each element in its own random exact Go representation, with planted duplicates at random position pairs " +
 		"(equal-but-not-identical: 1 / 1.0 / int8(1) / json.Number(\"1e0\"), key-permuted and differently typed containers) validated 8x against {uniqueItems:true} (every call draws a fresh hash seed) " +
 		"and compared with the pairwise canonical-form definition; (e) enum lists of 0-6 values and (c) const values, given both as documents and as Schema structs holding arbitrary representations, against equal / near-miss instances; " +
 		"(h) the hash law canon(x)==canon(y) => VerifHashValue(seed,x)==VerifHashValue(seed,y) on equal-by-construction pairs under fresh seeds (hook). Every case also runs in a second process and the verdict digests must agree. " +
@@ -104,6 +105,13 @@ func (c12) unique(c *fw.Case) {
 		} else {
 			model[i] = gen.Clone(pool[r.IntN(poolN)])
 		}
+	}
+	if r.IntN(6) == 0 {
+		// size stress: long, mostly unique arrays (13..257 items; implementations switch from pairwise comparison to hashing or
+		// sorting at some length) whose verdict hinges on ONE pair, in the company of hash colliders: unequal values that feed
+		// the same bytes to the hasher (null / false / "\x00", [] / {}, ["a","b"] / ["ab",""], {"a":"bc"} / {"ab":"c"})
+		model = longUniqueModel(r)
+		n = len(model)
 	}
 	planted := ""
 	if n >= 2 && r.IntN(2) == 0 {
@@ -187,6 +195,41 @@ func (c12) unique(c *fw.Case) {
 	}
 }
 
+// longUniqueModel builds a long, mostly unique array (model form): 13..257 distinct items, optionally the members of one
+// family of hash colliders (unequal values that feed the same bytes to the hasher), optionally one value twice.
+func longUniqueModel(r *rand.Rand) []any {
+	n := gen.Pick(r, []int{13, 14, 15, 16, 17, 18, 19, 24, 31, 32, 33, 34, 63, 64, 65, 66, 100, 129, 257})
+	model := make([]any, n)
+	for i := range model {
+		switch r.IntN(4) {
+		case 0:
+			model[i] = fmt.Sprintf("s%d", i)
+		case 1:
+			model[i] = []any{json.Number(fmt.Sprint(i))}
+		case 2:
+			model[i] = map[string]any{"i": json.Number(fmt.Sprint(i))}
+		default:
+			model[i] = json.Number(fmt.Sprint(i + 1000))
+		}
+	}
+	families := [][]any{{nil, false, "\x00"}, {true, "\x01"}, {[]any{}, map[string]any{}}, {[]any{"a", "b"}, []any{"ab", ""}, []any{"", "ab"}}, {map[string]any{"a": "bc"}, map[string]any{"ab": "c"}}}
+	fam := gen.Pick(r, families)
+	pos := r.Perm(n)
+	k := 0
+	if r.IntN(4) > 0 { // colliders, each once: still unique
+		for _, m := range fam {
+			model[pos[k]] = gen.Clone(m)
+			k++
+		}
+	}
+	if r.IntN(2) == 0 { // ... and one of them (or an ordinary item) twice
+		src := gen.Pick(r, []any{fam[0], fam[len(fam)-1], model[pos[n-1]]})
+		model[pos[k]] = gen.Clone(src)
+		model[pos[k+1]] = gen.Clone(src)
+	}
+	return model
+}
+
 func (c12) enumConst(c *fw.Case, isEnum bool) {
 	r := c.R
 	opts := gen.ValueOpts{MaxDepth: 2, BigInts: false, MaxLen: 2}
@@ -210,6 +253,32 @@ func (c12) enumConst(c *fw.Case, isEnum bool) {
 	}
 	var tr gen.ReprTrace
 	inst := gen.Repr(r, instModel, gen.ReprOpts{}, &tr)
+	// aliasing inside one value: rows cut as prefixes of ONE backing array (s[:1], s[:2], ...) in the listed value and in the
+	// instance; the two differ only beyond the shortest prefix (or not at all)
+	var aliasedMember any
+	if n > 0 && c.Idx%9 == 4 {
+		k := 2 + r.IntN(3)
+		sb, ub := make([]any, k), make([]any, k)
+		for i := range sb {
+			sb[i] = gen.Value(r, gen.ValueOpts{MaxDepth: 1, MaxLen: 2}, 1)
+			ub[i] = gen.Clone(sb[i])
+		}
+		if r.IntN(2) == 0 {
+			i := 1 + r.IntN(k-1)
+			ub[i] = nearMiss(r, ub[i], 1)
+		}
+		rows := func(b []any) []any {
+			out := make([]any, 0, len(b))
+			for j := 1; j <= len(b); j++ {
+				out = append(out, b[:j])
+			}
+			return out
+		}
+		list[0] = gen.Clone(rows(sb))
+		aliasedMember = rows(sb)
+		inst = rows(ub)
+		tr = gen.ReprTrace{Kinds: map[string]bool{"aliased-prefix-rows": true}}
+	}
 	ic := canon.Must(inst)
 	kw := "const"
 	if isEnum {
@@ -261,9 +330,15 @@ func (c12) enumConst(c *fw.Case, isEnum bool) {
 		for i, e := range list {
 			s.Enum[i] = gen.Repr(r, e, gen.ReprOpts{}, nil)
 		}
+		if aliasedMember != nil {
+			s.Enum[0] = aliasedMember
+		}
 		structDesc = "Schema{Enum: " + gen.Describe(s.Enum) + "}"
 	} else {
 		v := gen.Repr(r, list[0], gen.ReprOpts{}, nil)
+		if aliasedMember != nil {
+			v = aliasedMember
+		}
 		s.Const = &v
 		structDesc = "Schema{Const: &" + gen.Describe(v) + "}"
 	}
